@@ -25,7 +25,7 @@ Definition the_init : state := init_with the_rows.
 
 Inductive obs :=
 | VObj (cls : positive) (kind : N) (T : tabid) (z : Z) (a : option Z) (q : Z)
-| VList (l : list positive)
+| VList (l : list (positive * Z))   (* id() class and number (elements) / isotope number (isotopes) *)
 | VErr (e : err).
 
 Definition c08case := (list (gop N) * list obs)%type.
@@ -86,14 +86,20 @@ Definition attrs_match (s : state) (o : oid) (kind : N) (T : tabid) (z : Z) (a :
   | _, _, _, _ => false
   end.
 
-Fixpoint bind_list (c : cst) (cl : list positive) (ol : list oid) : option cst :=
+(* the sort key an iteration item reports: isotope number of an isotope, number of an element *)
+Definition item_key (s : state) (o : oid) : option Z :=
+  match attr_isotope s o with Some a => Some a | None => attr_number s o end.
+
+Fixpoint bind_list (c : cst) (cl : list (positive * Z)) (ol : list oid) : option cst :=
   match cl, ol with
   | [], [] => Some c
-  | cls :: cr, o :: orr =>
-      match bind_cls c cls o with
-      | Some c1 => bind_list (push_reg c1 o) cr orr
-      | None => None
-      end
+  | (cls, k) :: cr, o :: orr =>
+      if optZ_eqb (Some k) (item_key (c_st c) o) then
+        match bind_cls c cls o with
+        | Some c1 => bind_list (push_reg c1 o) cr orr
+        | None => None
+        end
+      else None
   | _, _ => None
   end.
 
